@@ -2461,3 +2461,5 @@ PROP.streams.append(ClassHistoryStream())
 # value of the result (harness/falsy_results.py, shared with C12)
 from ..falsy_results import FalsyResults  # noqa: E402
 PROP.streams.append(FalsyResults("cse-falsy-results", "cse-result-recomputed"))
+
+PROP.level_note += ' Shared oracle stream cse-falsy-results (harness/falsy_results.py): wrappers whose child evaluates to None / a falsy value are computed once per instance, whatever the value.'
